@@ -257,7 +257,7 @@ func pickBehaviour(r *rand.Rand, mangles []string, pPass int) Behaviour {
 
 var injectKinds = []string{
 	"complaint", "dup-complaint", "early-answer-valid", "early-answer-wrong", "answer-twice", "second-vector-same", "second-vector-diff",
-	"late-share", "late-vector", "empty-bcast", "unknown-tag", "share-tag-on-bcast", "bcast-tag-on-private", "random-bcast", "random-private",
+	"answer-burst", "late-share", "late-vector", "empty-bcast", "unknown-tag", "share-tag-on-bcast", "bcast-tag-on-private", "random-bcast", "random-private",
 }
 
 func (s *Sim) drawScript(b int) *Script {
@@ -316,6 +316,9 @@ func (s *Sim) drawScript(b int) *Script {
 			if r.IntN(10) < 3 {
 				sc.Inject = append(sc.Inject, Injection{Round: 2 + r.IntN(2), Kind: "answer-twice", A: j})
 			}
+			if r.IntN(10) < 3 {
+				sc.Inject = append(sc.Inject, Injection{Round: 1 + r.IntN(2), Kind: "answer-burst", A: r.IntN(s.Sc.N), B: r.IntN(4)})
+			}
 			if r.IntN(10) < 2 {
 				sc.Inject = append(sc.Inject, Injection{Round: 1 + r.IntN(3), Kind: injectKinds[r.IntN(len(injectKinds))], A: r.IntN(s.Sc.N), B: r.IntN(s.Sc.N)})
 			}
@@ -339,7 +342,9 @@ func (s *Sim) drawScript(b int) *Script {
 	return sc
 }
 
-func scalarBytes(x *big.Int) []byte { return new(big.Int).Mod(x, new(big.Int).Lsh(big.NewInt(1), 256)).FillBytes(make([]byte, 32)) }
+func scalarBytes(x *big.Int) []byte {
+	return new(big.Int).Mod(x, new(big.Int).Lsh(big.NewInt(1), 256)).FillBytes(make([]byte, 32))
+}
 
 func (s *Sim) mangleShare(msg []byte, kind string) []byte {
 	if len(msg) != 33 {
@@ -712,6 +717,19 @@ func (s *Sim) inject() {
 				if s.isDealer(b) {
 					s.pushBroadcast(b, shareFor(target, false), s.round, true, lbl)
 					s.pushBroadcast(b, shareFor(target, true), s.round, true, lbl)
+				}
+			case "answer-burst":
+				// unsolicited (valid) answers for t-1 .. t+2 distinct participants: the number of complaint
+				// entries sits around the disqualification threshold
+				if s.isDealer(b) {
+					cnt := s.Sc.T - 1 + in.B%4
+					for j, sent := 0, 0; j < N && sent < cnt; j++ {
+						if (target+j)%N == b {
+							continue
+						}
+						s.pushBroadcast(b, shareFor((target+j)%N, false), s.round, true, lbl)
+						sent++
+					}
 				}
 			case "second-vector-same":
 				if n.vector != nil {
